@@ -462,6 +462,10 @@ pub fn par_for<L: Send>(total: usize, deadline: Instant, new_local: impl Fn() ->
 /// (smallest first), jobs of one space in parallel.
 pub fn explore_spaces(spaces: &[Space], focus: &Focus, deadline: Instant, total: &mut Stats, log: &mut Vec<Value>) {
     for sp in spaces {
+        if crate::ishim::skip_space_in_this_build(sp.specs.len()) {
+            log.push(json!({"space": sp.label, "graphs": sp.specs.len(), "skipped": "quick tier of the default-feature build leaves spaces of more than 3000 graphs to the thorough tier"}));
+            continue;
+        }
         let t0 = Instant::now();
         let mut st = Stats::default();
         // few graphs with many configurations each (wide families): parallelise over
